@@ -2157,4 +2157,52 @@ theorem toml_bool_text_old_counterexample :
     tomlItem (.scalar (.bool false)) = some (.str "false".toList) ∧
     tomlItem (.list [.bool true]) = some (.list ["True".toList]) := by decide +kernel
 
+/-! ## Hunter round: kernel-checked witnesses of what the code does on the reported inputs (all open findings)
+
+The full-strength readings "an unknown key never aborts", "every string written quoted in a list is read back", "a
+`*.toml` file is read with TOML rules", "every option can be set from a file" are FALSE of the code today; the statements
+proved above hold under the hypotheses they name (`unknown_key_not_applied` is about the items the file parser returns,
+`ini_multiline_list` about lines that do not start with a quote, `composite_toml_first` about a TOML parser that accepts
+the file).  The witnesses: -/
+
+/-- hunt/C20/2: `IniConfigParser.parse` evaluates every value before the validator sees the keys: an UNKNOWN key with a
+bracketed or quoted value that does not evaluate refuses the whole file (the run aborts, exit 2) -/
+theorem unknown_key_bad_value_counterexample :
+    iniItems true ["tool:pydoctor".toList]
+      [("tool:pydoctor".toList, [("project-name".toList, "Demo".toList), ("future-option".toList, "[a, b]".toList)])] = some none ∧
+    iniItems true ["tool:pydoctor".toList]
+      [("tool:pydoctor".toList, [("future-option".toList, ['\'', 'C', ':', '\\', 'x', '\'']), ("project-name".toList, "Demo".toList)])] = some none ∧
+    iniItems true ["tool:pydoctor".toList]
+      [("tool:pydoctor".toList, [("project-name".toList, "Demo".toList), ("future-option".toList, "a, b".toList)])] =
+      some (some [("project-name".toList, .str "Demo".toList), ("future-option".toList, .str "a, b".toList)]) := by
+  decide +kernel
+
+/-- hunt/C20/4: the lines of a one-item-per-line value are not unquoted (pydoctor's own test pins this) -/
+theorem ini_multiline_quoted_items_counterexample :
+    iniValue true (joinLines "a".toList [['"', 'b', '"'], ['\'', 'c', ' ', '\'']]) =
+      .list ["a".toList, ['"', 'b', '"'], ['\'', 'c', ' ', '\'']] ∧
+    iniValue true ['"', 'b', '"'] = .str ['b'] := by decide +kernel
+
+/-- hunt/C20/3: for `pyproject.toml` the INI parser is the fall-back: when the toml package refuses the file (it knows
+TOML 0.5 only) and the INI parser accepts it, the INI reading is used, silently (instance of `composite_fallback`) -/
+theorem toml_file_falls_back_to_ini {α : Type} (outcome : ParserKind → Option α) (r : α)
+    (ht : outcome .toml = none) (hi : outcome .ini = some r) :
+    compositeParse outcome (some "./pyproject.toml".toList) pydoctorParsers = some r := by
+  rw [(composite_fallback outcome _).2.1 ht, hi]
+
+/-- hunt/C20/1: with the config-file option in the table (as `ValidatorParser` builds it) the key `config` is known:
+no warning, and the item only becomes a late `--config=…` argument — no file is read for it -/
+theorem config_key_counterexample :
+    (validate (⟨["-c".toList, "--config".toList], .store⟩ :: exTable) [("config".toList, .str "extra.ini".toList)]).2 = [] ∧
+    (mergeFile (⟨["-c".toList, "--config".toList], .store⟩ :: exTable) [] [("config".toList, .str "extra.ini".toList)]).val =
+      some [parseArg "--config=extra.ini".toList] := by decide +kernel
+
+/-- side remark of the hunter: a source path equal to an option string counts as the option being on the command line
+(`already_on_command_line` looks at every argument, also behind `--`): the file's value is dropped -/
+theorem positional_equal_to_option_string_counterexample :
+    (mergeFile exTable [parseArg "--".toList, parseArg "--verbose".toList] [("verbose".toList, .str "1".toList)]).val =
+      some [parseArg "--".toList, parseArg "--verbose".toList] ∧
+    effective ⟨["--verbose".toList, "-v".toList], .count⟩ [parseArg "--".toList, parseArg "--verbose".toList] = .count 0 := by
+  decide +kernel
+
 end Config
